@@ -128,6 +128,10 @@ func (f *frame) execInstr(ins ssa.Instruction, in string, st *State) {
 	case *ssa.MakeMap, *ssa.MakeChan:
 		loc := f.alloc(ins.(ssa.Value).Name(), in, st)
 		if mm, ok := x.(*ssa.MakeMap); ok {
+			if mm.Reserve != nil {
+				rv := f.val(mm.Reserve).T
+				vc.obligeIn(f, "makemap", vc.anchorAt(f.fn, mm.Pos(), "call"), in, App("<=", rv, "1099511627776"), mm.Pos(), "make(map, n): the size hint is bounded (n <= 2^40)")
+			}
 			vc.mapInitEmpty(st, loc, mm.Type(), in)
 		}
 		f.set(ins.(ssa.Value), loc)
